@@ -33,7 +33,7 @@ from apischema.objects.visitor import (
 from apischema.serialization.serialized_methods import get_serialized_methods
 from apischema.types import AnyType
 from apischema.utils import Lazy
-from apischema.visitor import Result
+from apischema.visitor import Result, Unsupported
 
 RecursionKey = Tuple[AnyType, Optional[AnyConversion]]
 
@@ -82,7 +82,11 @@ class RecursiveChecker(ConversionsVisitor[Conv, Any], ObjectVisitor[Any]):
         pass
 
     def unsupported(self, tp: AnyType):
-        pass
+        try:
+            # classes whose fields are given by set_object_fields are objects too
+            super().unsupported(tp)
+        except Unsupported:
+            pass
 
     def visit(self, tp: AnyType):
         rec_key = (tp, self._conversion)
